@@ -60,9 +60,10 @@ impl SwiftField for Field61 {
         }
 
         // Format: 6!n[4!n]2a[1!a]15d1!a3!c[16x][//16x][34x]
-        if input.len() < 15 {
+        // Shortest statement line: 6!n + D/C mark + 1 amount digit + 1!a3!c
+        if input.len() < 12 {
             return Err(ParseError::InvalidFormat {
-                message: "Field 61 must be at least 15 characters long".to_string(),
+                message: "Field 61 must be at least 12 characters long".to_string(),
             });
         }
 
